@@ -115,7 +115,7 @@ struct Up {
 #[derive(Default)]
 struct Sim {
     buckets: BTreeMap<String, BTreeMap<String, usize>>,
-    /// (bucket,key) whose metadata side file exists (never removed by the backend)
+    /// (bucket,key) whose metadata side file exists
     metafile: BTreeSet<(String, String)>,
     /// (bucket,key) whose internal-info side file carries a checksum
     cksfile: BTreeSet<(String, String)>,
@@ -408,12 +408,8 @@ impl Gen<'_> {
             if !self.sim.buckets.contains_key(&sb) {
                 return None;
             }
-            if !(self.sim.metafile.contains(&src) || !self.sim.metafile.contains(&dst)) {
-                return None;
-            }
-            if self.sim.cksfile.contains(&dst) || self.sim.cksfile.contains(&src) {
-                return None;
-            }
+            // (since aa68bb7 a copy replaces the side files of the object it replaces by the source's: a clean history may copy
+            // between objects whatever metadata or recorded checksums they have)
         } else if self_copy && !self.rng.chance(1, 4) {
             return None;
         }
@@ -422,7 +418,14 @@ impl Gen<'_> {
                 self.sim.buckets.get_mut(&db).unwrap().insert(dk.clone(), len);
                 self.sim.maybe.insert(dst.clone());
                 if self.sim.metafile.contains(&src) {
-                    self.sim.metafile.insert(dst);
+                    self.sim.metafile.insert(dst.clone());
+                } else {
+                    self.sim.metafile.remove(&dst);
+                }
+                if self.sim.cksfile.contains(&src) {
+                    self.sim.cksfile.insert(dst);
+                } else {
+                    self.sim.cksfile.remove(&dst);
                 }
             }
         }
